@@ -3061,8 +3061,10 @@ orc_compiler_avx_register_rules (OrcTarget *target)
   orc_rule_register (rule_set, #x, avx_rule_##y, (void *)z)
 
   /* AVX */
+  /* the 256-bit integer forms used by the loads, stores and most rules
+   * below are AVX2 instructions */
   OrcRuleSet *rule_set = orc_rule_set_new (orc_opcode_set_get ("sys"), target,
-      ORC_TARGET_AVX_AVX);
+      ORC_TARGET_AVX_AVX | ORC_TARGET_AVX_AVX2);
 
   REGISTER_RULE_WITH_GENERIC (loadb, loadX);
   REGISTER_RULE_WITH_GENERIC (loadw, loadX);
